@@ -94,7 +94,7 @@ type vwStation struct {
 }
 
 func vwSubnetFile(t testing.TB) string {
-	dir, err := os.MkdirTemp("", "verif_c11_")
+	dir, err := os.MkdirTemp(os.Getenv("VERIF_TMP"), "verif_c11_")
 	if err != nil {
 		t.Fatal(err)
 	}
